@@ -5,7 +5,7 @@ from rules.shared import deref, truth
 
 META = {
     'title': 'Source text denotes one tree: precedence, associativity, layout-independence',
-    'explanation': "A Pratt parser's grouping is fixed by the binding-power table, the strictness of the loop guard and the power passed to the recursive call. The rules extract Token->Precedence for all 40 tokens (abstract evaluation of the MIR per variant), the discriminant order of Precedence, which way the continuation loop goes on for the Precedence comparison it makes and the origins of its operands, the power handed to the recursive parse_expr, the routine one turn of the loop (and the prefix position) hands each token to (constant propagation through parse_expr with the current token fixed to each variant), the shape of the op-assign construction wherever it is built, the else-if construction and the separator skipping, and compare them with the documented order. Layout: the set of code points the lexer skips (constant propagation through Tokenizer::next for every code point below U+3001) and the comment scan.",
+    'explanation': "A Pratt parser's grouping is fixed by the binding-power table, the strictness of the loop guard and the power passed to the recursive call. The rules extract Token->Precedence for all 40 tokens (abstract evaluation of the MIR per variant), the discriminant order of Precedence, which way the continuation loop goes on for the Precedence comparison it makes and the origins of its operands, the power handed to the recursive parse_expr, the routine one turn of the loop (and the prefix position) hands each token to (constant propagation through parse_expr with the current token fixed to each variant), the shape of the op-assign construction wherever it is built, the else-if construction and the separator skipping, and compare them with the documented order. Layout: the set of code points the lexer skips (constant propagation through Tokenizer::next for every code point below U+3001) and the comment scan. R07.8 the routine that consumes the optional `;` runs only as one turn of a statement-list loop or right before a mandatory closing token, never inside an expression that can go on after it. R07.9 no branch of the parser depends on anything the tokenizer offers besides the tokens of next().",
     'not_decided': ['the round trip parse(print(t)) = t for arbitrary trees (a relation over runs)',
                     'binding strength of prefix operators (unspecified, DESIGN 4.3 item 2)'],
 }
